@@ -147,7 +147,7 @@ Lemma sstep_scoh s a o :
   SCoh s a -> op_ok o ->
   SCoh (fst (sstep s o)) (fst (astep true a o)) /\ snd (sstep s o) = snd (astep true a o).
 Proof.
-  intros HS Hok. destruct o as [kt v|k|k|kt|q|v|]; simpl.
+  intros HS Hok. destruct o as [kt v|k|k|kt|q|v| |kt]; simpl.
   - destruct (sd_setitem_scoh s a kt v HS Hok) as [s' [Hs' HS']]. rewrite Hs'. simpl.
     split; [exact HS'|reflexivity].
   - unfold aspec_del. destruct (aval a k) as [v|] eqn:Hk.
@@ -173,6 +173,7 @@ Proof.
       * intro k. rewrite Hattr. reflexivity.
       * reflexivity.
     + split; [|reflexivity]. constructor; try assumption. congruence.
+  - split; [exact HS|reflexivity].
 Qed.
 
 Lemma sview_ok ks vs s a e : SCoh s a -> view_ok (sview ks vs s e) (aview true ks vs a e).
